@@ -291,7 +291,7 @@ class Gen:
             return ["err"] if c < 0.5 else self.cond() + ["assert"]
         if in_sub:
             self.tags.add("innerApprove")
-        if c < 0.05 and self.intcblock is not None and 1 in self.intcblock:
+        if c < (0.4 if getattr(self, 'late_intc', False) else 0.05) and self.intcblock is not None and 1 in self.intcblock:
             return [f"intc {self.intcblock.index(1)}", "return"]
         if c < 0.35: return ["int 1", "return"]
         if c < 0.5: return ["int 0", "return"]
@@ -354,6 +354,10 @@ class Gen:
         r = self.r
         if r.random() < 0.5 and self.cfg.intc:
             self.intcblock = [0, 1]
+            # the constant block outside the entry block (behind a jump): the AVM loads it all the same, tealer cannot
+            # resolve `intc` then - every constant read through it is an unknown value, also the one an approving
+            # `return` takes
+            self.late_intc = r.random() < 0.2
         nsubs = r.randrange(0, self.cfg.max_subs + 1)
         names = [f"sub{i}" for i in range(nsubs)]
         # subroutine i may call subroutines with a larger index (no recursion) unless shapes allow recursion
@@ -384,6 +388,8 @@ class Gen:
             main += self.cond()        # falls off the end with the condition
         lines = ["#pragma version 8"]
         if self.intcblock is not None:
+            if getattr(self, 'late_intc', False):
+                lines += ["b late_consts", "late_consts:"]
             lines += ["__INTCBLOCK__"]
         if nsubs and endc >= 0.8:
             # falling off the end is only possible when the main code is textually last
@@ -539,6 +545,44 @@ def dense(seed, index):
         body.append(f"{sname}:")
         body += region(sname + "b", r.randrange(2, 6), subs if r.random() < 0.5 else [], "retsub")
     return "#pragma version 8\n" + "\n".join(body) + "\n"
+
+
+ADDR_FIELDS = ["RekeyTo", "CloseRemainderTo", "AssetCloseTo", "Sender"]
+ADDRFAM_LAYOUTS = ["diamond", "or-then-branch", "three-way", "diamond-in-sub", "loop-narrowing"]
+N_ADDRFAM = len(ADDR_FIELDS) * len(ADDRFAM_LAYOUTS) * 2
+
+
+def addrfam(seed, index):
+    """systematic family: ONE address field compared with SEVERAL DIFFERENT literal addresses - on converging paths (each arm
+    asserts another literal), as a list (`a || b`) that is then branched on, three-way, inside a subroutine called from two
+    sites, and narrowed again inside a loop; the second half of the family reads the field through `gtxn 0`"""
+    r = random.Random(f"addrfam/{seed}/{index}")
+    field = ADDR_FIELDS[index % len(ADDR_FIELDS)]
+    layout = ADDRFAM_LAYOUTS[(index // len(ADDR_FIELDS)) % len(ADDRFAM_LAYOUTS)]
+    via_gtxn = (index // (len(ADDR_FIELDS) * len(ADDRFAM_LAYOUTS))) % 2 == 1
+    read = f"gtxn 0 {field}" if via_gtxn else f"txn {field}"
+    lits = LITERALS[:]; r.shuffle(lits)
+    a, b, c = lits[0], lits[1], lits[2 % len(lits)]
+    other = r.choice([f for f in ADDR_FIELDS if f != field])
+    def eq(x, swap=False):
+        return [f"addr {x}", read, "=="] if swap else [read, f"addr {x}", "=="]
+    sw = r.random() < 0.5
+    L = ["#pragma version 8"]
+    if layout == "diamond":
+        L += [f"txn {other}", f"addr {c}", "==", "bnz arm_a"] + eq(b, sw) + ["assert", "b merge", "arm_a:"] + eq(a) + ["assert", "b merge", "merge:",
+              "txn Fee", "int 1000", "<=", "assert", "int 1", "return"]
+    elif layout == "or-then-branch":
+        L += eq(a) + eq(b, sw) + ["||", "assert"] + eq(a, sw) + ["bnz is_a", "int 1", "return", "is_a:", f"txn {other}", f"addr {c}", "==", "return"]
+    elif layout == "three-way":
+        L += ["load 0", "bz w1", "load 1", "bz w2"] + eq(a) + ["assert", "b done", "w1:"] + eq(b, sw) + ["assert", "b done", "w2:"] + eq(c) + \
+             ["assert", "done:", "int 1", "return"]
+    elif layout == "diamond-in-sub":
+        L += ["load 0", "bz second", "callsub chk", "int 1", "return", "second:", "callsub chk", "txn Fee", "int 1000", "<=", "return",
+              "chk:", "load 1", "bnz chk_a"] + eq(b, sw) + ["assert", "retsub", "chk_a:"] + eq(a) + ["assert", "retsub"]
+    else:   # loop-narrowing
+        L += eq(a) + eq(b, sw) + ["||", "assert", "int 0", "store 0", "again:", "load 0", "int 3", "<", "bz out"] + eq(a, sw) + \
+             ["bz skip", "load 0", "int 1", "+", "store 0", "b again", "skip:", "int 1", "return", "out:", "int 1", "return"]
+    return "\n".join(L) + "\n"
 
 
 def deadcode(seed, index):
